@@ -17,6 +17,7 @@ pub mod c15;
 pub mod c16;
 pub mod c17;
 pub mod c18;
+pub mod sanlane;
 
 use crate::ctx::Ctx;
 
@@ -40,7 +41,7 @@ pub fn run(ctx: &mut Ctx) -> bool {
         "C16" => c16::run(ctx),
         "C17" => c17::run(ctx),
         "C18" => c18::run(ctx),
-        _ => return false,
+        _ => return sanlane::run(ctx),
     }
     true
 }
